@@ -16,7 +16,7 @@ from vlib.driver import Report, handle_xh
 
 HDIR = os.path.dirname(os.path.abspath(__file__))
 H = os.path.join(HDIR, "c14_h.py")
-RELS = ["A", "A+x", "x+A", "A/x", "x/A", "other", "B"]
+RELS = ["A", "A+x", "x+A", "A/x", "x/A", "other", "B", "A.pdf", "A:x", "A+", "A-x", "A x"]
 
 
 def _names():
@@ -30,7 +30,7 @@ def _names():
 
 
 def rel_name(r, A, B):
-    return [A, A + "x", "x" + A, A + "/x", "x/" + A, "q", B][r]
+    return [A, A + "x", "x" + A, A + "/x", "x/" + A, "q", B, A + ".pdf", A + ":x", A + "+", A + "-x", A + " x"][r]
 
 
 def build(A, B, r0, anchor0, r1, anchor1):
@@ -86,24 +86,24 @@ def main():
         explanation=(
             "CrossHair/z3 symbolic execution of the real run_file_rename (+ simplify_fname / strip_zdir) over an in-memory "
             "directory with the renamed page, a .zo, a .zot (sub-directory), a .zoq and a .txt file, each carrying two links "
-            "whose page names relate to the renamed page A as: A itself, A+suffix, prefix+A, A/sub, sub/A, unrelated, the new "
+            "whose page names relate to the renamed page A as: A itself, A+suffix, prefix+A, A/sub, sub/A, A.pdf, A:x, A+, A-x, "A x", unrelated, the new "
             "name B; with and without #anchor; names given with or without the .zo extension. Oracle: file moved, exactly the "
             "links to A retargeted (anchor kept), every other byte and the .txt file unchanged."),
         functions=["zorg.app.runners._run_file.run_file_rename", "zorg.shared.common.simplify_fname", "zorg.shared.common.strip_zdir"],
         stubs=["c.prepend_zdir / c.get_all_zfiles over an in-memory FS (rename, read_text, write_text); replay uses real pathlib"],
         bounds=["page names: %r (every 1-2 letter name over {a,o,z} + specials), B = the next name in that list" % (names,),
-                "7 link-name relations for the first link, {A, unrelated} for the second, anchors on/off, extension on/off"],
+                "12 link-name relations for the first link (A, A extended / prefixed by a letter, by a path segment, by '.pdf' ':x' '+' '-x' ' x', unrelated, B), {A, unrelated} for the second, anchors on/off, extension on/off"],
         outside=["names containing the text of the zettel dir path; link text outside well-formed [[name]] / [[name#anchor]]",
                  "more than two links per file; symbolic page names (str.replace on symbolic strings is beyond CrossHair's reach: "
                  "8 paths in 120 s)"])
     T = 150 if tier == "quick" else 500
     conds = []
-    step = 5
+    step = 2
     for lo in range(0, len(names), step):
         conds.append(xh.Cond(H, "rename_menu", timeout=T, env={"XH_A": "%d-%d" % (lo, min(len(names), lo + step))},
                              meta={"variant": "names[%d:%d]" % (lo, lo + step), "family": "rename",
                                    "bound": "A in %r" % (names[lo:lo + step],)}))
-    conds.append(xh.Cond(H, "rename_menu", timeout=30, twin=True, env={"XH_A": "0-5"}, meta={"variant": "names[0:5]", "family": "twin"}))
+    conds.append(xh.Cond(H, "rename_menu", timeout=30, twin=True, env={"XH_A": "0-2"}, meta={"variant": "names[0:2]", "family": "twin"}))
     results = xh.run_all(conds)
     handle_xh(rep, results, replayer)
     rep.sample({"A": "todo", "B": "memo", "file": build("todo", "memo", 1, True, 0, False)[0]})
